@@ -214,8 +214,8 @@ def run(ctx):
         "(0-5 x 0-6, magnitudes to 2^70).  A case is non-trivial when the picture is not constant.")
     corr_dc(ctx, I)
     cases = {"gather": [], "lossless": [], "scatter": [], "meta": []}
-    ncorr = ctx.pick(70, 700)
-    for i in range(ctx.pick(260, 4000)):
+    ncorr = ctx.pick(50, 700)
+    for i in range(ctx.pick(200, 4000)):
         lossless = rng.random() < 0.55
         kw = common.random_small_config(rng, lossless=lossless, deep=rng.random() < 0.15,
                                         max_w=(12 if i < ncorr else 16), max_h=(8 if i < ncorr else 12))
@@ -225,7 +225,7 @@ def run(ctx):
         ctx.count(1, key=("cfg", repr(inp)) if inp["picture_kind"] in ("noise", "extremes", "ramp") else None, bucket="stack-" + b)
         if i < 2:
             ctx.sample(inp)
-    imports = ["Base.PyZ", "Model.EncoderSlices", "Corr.C14", "Corr.C04"]
+    imports = ["Base.PyZ", "Model.EncoderSlices", "Corr.C04"]
     for name, chk, shard in (("gather", "check_gather", 6), ("lossless", "check_hq_lossless", 6), ("scatter", "check_scatter", 6)):
         bad = ctx.coq_check_cases(name, imports, chk, cases[name], shard=shard)
         ctx.count(len(cases[name]), bucket="corr-" + name)
